@@ -147,6 +147,7 @@ def grid_case(ctx, idx, rng):
     spectrum = SPECTRA[(idx // 2 + rep) % len(SPECTRA)]
     start = STARTS[(idx // 3 + rep) % len(STARTS)]
     A, v = kr.make_case(rng, n, cplx, spectrum, start)
+    A = A * float(rng.choice([1, 1, 1, 1e-4, 1e4]))          # the relations are scale covariant (the breakdown threshold of the iteration is absolute: scales below 1e-4 would make exhaustion ambiguous)
     ctx.case(('lanczos', 'n<=10', 'm>n' if m > n else ('m=n' if m == n else 'm<n'), spectrum, start, 'complex' if cplx else 'real'),
              sample={'n': n, 'm': m, 'spectrum': spectrum, 'start': start, 'A': A, 'v': v})
     check_lanczos(ctx, A, v, m)
